@@ -412,6 +412,9 @@ func checkProperty(p *Property, tier string, seed int) int {
 		}
 	}
 	evDir := filepath.Join(verifDir(), "evidence")
+	if d := os.Getenv("DGEVIDENCE"); d != "" {
+		evDir = d // developer runs against scratch variants must not overwrite the committed evidence
+	}
 	os.MkdirAll(evDir, 0o755)
 	vdir := filepath.Join(evDir, p.ID+".violations")
 	os.RemoveAll(vdir)
